@@ -84,6 +84,8 @@ type sporkHist struct {
 	fol    *BareNode           // follower: fed the producer's momentums through ChainBridge.InsertChain
 	fed    uint64              // height up to which the follower has been fed
 	htlcs  []types.Hash        // inserted Htlc.Create sends (executed or refunded), compared on the follower
+	effs   []effCall           // inserted calls of gated methods whose EFFECT is observable in the receive block (descendants)
+	funded bool                // the liquidity contract was given ZNN and QSR to spend
 
 	savedCfg *genesis.SporkConfig
 }
@@ -328,9 +330,65 @@ func (h *sporkHist) observeSporks() {
 	}
 }
 
+// a call of a gated method whose effect shows in its receive block: Liquidity.Fund (donates the contract's ZNN and QSR
+// to the accelerator: two descendant sends) and Liquidity.BurnZnn (one descendant Burn call), both gated by the
+// accelerator spork and reachable through the tables that are built on top of the accelerator table
+type effCall struct {
+	hash  types.Hash
+	guard int
+	name  string
+}
+
+func (h *sporkHist) effectCall() {
+	if !h.funded {
+		// Donate is in the origin table of the liquidity contract: the treasury can be filled in every regime
+		h.send(g.User1, types.LiquidityContract, types.ZnnTokenStandard, big.NewInt(50), definition.ABICommon.PackMethodPanic(definition.DonateMethodName))
+		h.send(g.User1, types.LiquidityContract, types.QsrTokenStandard, big.NewInt(50), definition.ABICommon.PackMethodPanic(definition.DonateMethodName))
+		h.funded = true
+		return
+	}
+	var data []byte
+	name := "Liquidity.Fund"
+	if h.rng.Intn(2) == 0 {
+		data = definition.ABILiquidity.PackMethodPanic(definition.FundMethodName, big.NewInt(1), big.NewInt(1))
+	} else {
+		name = "Liquidity.BurnZnn"
+		data = definition.ABILiquidity.PackMethodPanic(definition.BurnZnnMethodName, big.NewInt(1))
+	}
+	if b, err := h.send(g.Spork, types.LiquidityContract, types.ZnnTokenStandard, nil, data); err == nil {
+		h.effs = append(h.effs, effCall{b.Hash, 1, name})
+		h.out.Count("node:act:effect-call:" + name)
+	} else {
+		h.out.Count("node:act:effect-call-refused:" + name)
+	}
+}
+
+// the property on the EFFECT of a gated method: a call received where the method's own spork is not enforced (the method
+// can be reachable there through a table built on top of its own one) has no effect beyond being consumed
+func (h *sporkHist) checkEffects() {
+	pf := h.nd.Ch.GetFrontierMomentumStore()
+	for _, e := range h.effs {
+		rb, _ := pf.GetBlockWhichReceives(e.hash)
+		if rb == nil {
+			continue
+		}
+		act := h.wantActive(h.role[e.guard].SporkId, rb.MomentumAcknowledged.Height)
+		if act {
+			h.out.Count("node:effect-call-received:own-spork-enforced:descendants=" + fmt.Sprint(len(rb.DescendantBlocks)))
+			continue
+		}
+		h.out.Count("node:effect-call-received:own-spork-not-enforced")
+		h.out.Oracle(len(rb.DescendantBlocks) == 0, "gated-effect-only-where-its-own-spork-is-enforced",
+			M{"method": e.name, "send": e.hash.String(), "received_with_momentum": U64(rb.MomentumAcknowledged.Height), "descendants": I64(int64(len(rb.DescendantBlocks)))})
+	}
+}
+
 func (h *sporkHist) step() {
 	if h.rng.Intn(6) == 0 {
 		h.htlcCall()
+	}
+	if h.rng.Intn(4) == 0 {
+		h.effectCall()
 	}
 	h.nd.Momentum()
 	h.syncFollower(false)
@@ -677,6 +735,7 @@ func nodeHistory(rng *rand.Rand, out *Out) {
 		h.step()
 	}
 	h.syncFollower(true)
+	h.checkEffects()
 	// the refund path really occurred and really differs from the executed one
 	pf := h.nd.Ch.GetFrontierMomentumStore()
 	for _, sh := range h.htlcs {
